@@ -61,7 +61,7 @@ PROPS = {
     },
     "C02": {
         "lean": "Originium.Props.C02",
-        "suites": ["key", "db"],
+        "suites": ["key", "db", "closerace"],
         "skeleton_funcs": DB_SKEL,
         "trusted_base": DB_TB + ["recovery rebuilds handles from files: C11_table_roundtrip; wal replay after a clean Close is empty (the directory listing is checked by the suite)"] + ["extract/gotrans.go (DESIGN section 14) regenerates GenLevel.maxLevelIdx (levelManager.maxLevelIdx) from /repo on every run; LevelTie.maxLevelIdx_fresh (the next table name of a level is fresh) is part of this property's module; container/list is a list"] + ["extract/gotrans.go also regenerates GenDB.close (the order of the effects of DB.Close); DBTie.close_table"],
         "assumptions": [],
@@ -69,7 +69,7 @@ PROPS = {
     },
     "C03": {
         "lean": "Originium.Props.C03",
-        "suites": ["key", "crash"],
+        "suites": ["key", "crash", "closerace"],
         "skeleton_funcs": FS_SKEL,
         "trusted_base": DB_TB + FS_TB + ["extract/gotrans.go (DESIGN section 14) regenerates GenLevel.maxLevelIdx (levelManager.maxLevelIdx) from /repo on every run; LevelTie.maxLevelIdx_fresh (the next table name of a level is fresh) is part of this property's module; container/list is a list"],
         "assumptions": ["process-crash model: every completed file-system call persists; one hook call = one operation = one crash point; a wal batch is one write call",
@@ -121,7 +121,7 @@ PROPS = {
     },
     "C08": {
         "lean": "Originium.Props.C08",
-        "suites": ["key", "db"],
+        "suites": ["key", "db", "closerace"],
         "skeleton_funcs": DB_SKEL,
         "trusted_base": DB_TB + ["extract/gotrans.go (the Go-to-Lean translator, DESIGN section 14): regenerates GenOracle.* and GenTxn.* (oracle.hasConflict, cleanUpCommittedTxns, newCommitTs, doneRead, Txn.modify/Get/Commit, DB.View/Update) from /repo on every run; maps are association lists, integers Nat, calls with outside effects an ordered event list; the tie theorems (OracleTie, TxnTie) are part of this property's module"],
         "assumptions": [],
